@@ -49,9 +49,7 @@ def main(chk):
         raise AnalysisError('time loop of Solver.solve not found')
     L = main_loop[0]
     # --- loop guard
-    want = '(self.tf-self.t)>self._epsilonandself.count<self.max_steps'
-    got = compact(L.ast.test).replace('(self.count<self.max_steps)', 'self.count<self.max_steps')
-    chk.decide(got == want.replace('(self.tf-self.t)', 'self.tf-self.t') or got == want, 'loop-guard', 'test', node=L.ast, file=SOL, func='Solver.solve',
+    chk.decide(same(L.ast.test, 'self.tf - self.t > self._epsilon and self.count < self.max_steps'), 'loop-guard', 'test', node=L.ast, file=SOL, func='Solver.solve',
                detail_bad='loop runs while %s (documented: tf - t > epsilon and count < max_steps)' % U(L.ast.test), detail_ok=U(L.ast.test))
     attrs = sorted(set(a.attr for a in ast.walk(L.ast.test) if isinstance(a, ast.Attribute)))
     chk.decide(attrs == ['_epsilon', 'count', 'max_steps', 't', 'tf'], 'loop-guard', 'reads', node=L.ast, file=SOL, func='Solver.solve',
@@ -145,7 +143,7 @@ def main(chk):
     # callbacks loops: each registered callback called with the solver
     for nm in ('pre_step_callbacks', 'post_step_callbacks'):
         lp = [l for l in ast.walk(L.ast) if isinstance(l, ast.For) and compact(l.iter) == 'self.' + nm]
-        ok = len(lp) == 1 and len(lp[0].body) == 1 and compact(lp[0].body[0]) == 'callback(self)' and \
+        ok = len(lp) == 1 and len(lp[0].body) == 1 and isinstance(lp[0].target, ast.Name) and compact(lp[0].body[0]) == '%s(self)' % lp[0].target.id and \
             not any(isinstance(x, (ast.Break, ast.Continue)) for x in ast.walk(lp[0]))
         chk.decide(ok, 'iteration-order', nm + ':each-once', node=lp[0] if lp else L.ast, file=SOL, func='Solver.solve',
                    detail_bad='%s are not each called exactly once per step as callback(self)' % nm, detail_ok='for callback in self.%s: callback(self)' % nm)
@@ -233,49 +231,65 @@ def main(chk):
                    detail_bad='clamp conditions are %s' % bad['reach'], detail_ok='only with requested times, one of them within reach')
         chk.decide(bad['saved'] is None, 'clamp', 'nominal-step-saved', node=node_c, file=SOL, func='_dump_output_if_needed',
                    detail_bad='the nominal step is not saved in _prev_dt before the step is shortened', detail_ok='self._prev_dt = dt first')
-    # --- dump decision
-    dd = [a for a in ast.walk(dn) if isinstance(a, ast.Assign) and U(a.targets[0]) == 'dump']
-    vals = [compact(a.value) for a in dd]
-    chk.decide('self.count%self.pfreq==0' in vals, 'dump-decision', 'every-pfreq-th-iteration', node=dn, file=SOL, func='_dump_output_if_needed',
-               detail_bad='dump decisions are %s' % vals, detail_ok='count % pfreq == 0')
-    # "a requested time has been reached" must make the dump happen: the flag set under |tdiff| < epsilon flows (through copies, `if flag: other = True`,
-    # `a = a or flag`) into the variable that guards dump_output()
-    flags, first = set(), None
-    for _ in range(6):
-        for a in ast.walk(dn):
-            if not isinstance(a, ast.Assign) or len(a.targets) != 1 or not isinstance(a.targets[0], ast.Name):
-                continue
-            nm_, v_ = a.targets[0].id, a.value
-            gi_ = M.enclosing(a, (ast.If,))
-            if isinstance(v_, ast.Constant) and v_.value is True and gi_ is not None and a in gi_.body:
-                if same(gi_.test, 'numpy.any(numpy.abs(tdiff)<self._epsilon)'):
-                    flags.add(nm_)
-                    first = first or a
-                elif isinstance(gi_.test, ast.Name) and gi_.test.id in flags:
-                    flags.add(nm_)
-            elif isinstance(v_, ast.Name) and v_.id in flags:
-                flags.add(nm_)
-            elif isinstance(v_, ast.BoolOp) and isinstance(v_.op, ast.Or) and any(isinstance(x, ast.Name) and x.id in flags for x in v_.values):
-                flags.add(nm_)
-    at = [first] if first is not None else []
-    ok = 'dump' in flags
-    chk.decide(ok, 'dump-decision', 'at-requested-times', node=at[0] if at else dn, file=SOL, func='_dump_output_if_needed',
-               detail_bad='output at requested times is not triggered by |tdiff| < epsilon', detail_ok='any(|tdiff| < epsilon)')
-    gd = C.build_cfg(dn)
-    dumpn = [n.id for n in gd.nodes if n.ast is not None and isinstance(n.ast, ast.Expr) and M.call_name(n.ast.value) == 'self.dump_output']
-    ok = len(dumpn) == 1 and compact(M.enclosing(gd.nodes[dumpn[0]].ast, (ast.If,)).test) == 'dump'
-    chk.decide(ok, 'dump-decision', 'decision-followed-by-dump', node=dn, file=SOL, func='_dump_output_if_needed',
-               detail_bad='dump_output() is not called exactly under `if dump`', detail_ok='if dump: dump_output()')
-    early = [i for i in ast.walk(dn) if isinstance(i, ast.If) and any(isinstance(b, ast.Return) for b in i.body)]
-    chk.decide(len(early) == 1 and same(early[0].test, 'abs(self.t-self.tf)<self._epsilon'), 'dump-decision', 'end-of-run-left-to-final-dump',
-               node=dn, file=SOL, func='_dump_output_if_needed', detail_bad='early returns: %s' % [U(e.test) for e in early],
+    # --- dump decision, per feasible path: output is written exactly when the iteration count is a multiple of pfreq or a requested time has been reached
+    AT_TIME = ('numpy.any(numpy.abs(self.output_at_times - self.t) < self._epsilon)', 'numpy.any(numpy.abs(self.t - self.output_at_times) < self._epsilon)')
+    PFREQ = ('self.count % self.pfreq == 0',)
+    ENDT = ('abs(self.t - self.tf) < self._epsilon', 'abs(self.tf - self.t) < self._epsilon')
+    bad_pf = bad_at = bad_once = bad_early = None
+    n_pf = n_at = 0
+    for p_ in dpaths:
+        if p_[-1].kind == 'raise':
+            continue
+        ended = PT.took(p_, True, *ENDT) is not None
+        dumps = [i for i, c, cal, env in PT.calls_on(p_) if cal == 'self.dump_output']
+        if p_[-1].kind == 'return' and not ended:
+            bad_early = bad_early or p_[-1].node
+        if ended:
+            if dumps:
+                bad_early = bad_early or p_[-1].node
+            continue
+        if len(dumps) > 1:
+            bad_once = bad_once or p_[dumps[1]].node
+        at_time = PT.took(p_, True, *AT_TIME) is not None
+        pf_t = PT.took(p_, True, *PFREQ) is not None
+        pf_f = PT.took(p_, False, *PFREQ) is not None
+        if at_time:
+            n_at += 1
+            if not dumps:
+                bad_at = bad_at or [repr(e)[:70] for e in p_ if e.kind == 'cond']
+        else:
+            n_pf += 1
+            if not (pf_t or pf_f) or bool(dumps) != pf_t:
+                bad_pf = bad_pf or [repr(e)[:70] for e in p_ if e.kind == 'cond']
+    chk.decide(n_pf > 0 and bad_pf is None, 'dump-decision', 'every-pfreq-th-iteration', node=dn, file=SOL, func='_dump_output_if_needed',
+               detail_bad='away from the requested times output is not written exactly when count %% pfreq == 0 (path: %s)' % bad_pf, detail_ok='count % pfreq == 0')
+    chk.decide(n_at > 0 and bad_at is None, 'dump-decision', 'at-requested-times', node=dn, file=SOL, func='_dump_output_if_needed',
+               detail_bad='a path on which a requested output time has been reached (|tdiff| < epsilon) does not write output (path: %s)' % bad_at, detail_ok='any(|tdiff| < epsilon) -> dump')
+    chk.decide(bad_once is None, 'dump-decision', 'decision-followed-by-dump', node=bad_once or dn, file=SOL, func='_dump_output_if_needed',
+               detail_bad='dump_output() is called more than once on a path', detail_ok='at most one dump per call')
+    chk.decide(bad_early is None and any(PT.took(p_, True, *ENDT) is not None for p_ in dpaths), 'dump-decision', 'end-of-run-left-to-final-dump',
+               node=bad_early or dn, file=SOL, func='_dump_output_if_needed', detail_bad='the method returns early / dumps other than "nothing at t == tf" (the final dump follows the loop)',
                detail_ok='only at t == tf (the final dump follows the loop)')
     # --- solver data: nominal step
     sd = M.find_func(cls, '_get_solver_data')
-    src = compact(sd)
-    ok = 'ifself._prev_dtisnotNone:dt=self._prev_dt/self._damping_factor' in src.replace('\n', '') and 'else:dt=self._get_undamped_timestep()' in src.replace('\n', '')
-    chk.decide(ok, 'nominal-step-in-output', '_get_solver_data', node=sd, file=SOL, func='_get_solver_data',
-               detail_bad='recorded dt is not the nominal (un-clamped, undamped) step', detail_ok='_prev_dt/_damping_factor when a clamp is pending, else undamped step')
+    sp_ = PT.enumerate_paths(M.docstring_stripped(sd.body))
+    ok = bool(sp_)
+    seen_pending = seen_plain = False
+    for p_ in sp_:
+        r_ = p_[-1]
+        dv = None
+        if r_.kind == 'return' and isinstance(r_.node.value, ast.Dict):
+            for k_, v_ in zip(r_.node.value.keys, r_.node.value.values):
+                if M.const_str(k_) == 'dt':
+                    dv = PT.resolve(v_, r_.env)
+        pending = PT.took(p_, True, 'self._prev_dt is not None') is not None
+        if pending:
+            seen_pending = True
+            ok = ok and dv is not None and same(dv, 'self._prev_dt/self._damping_factor')
+        else:
+            seen_plain = True
+            ok = ok and dv is not None and compact(dv) == 'self._get_undamped_timestep()'
+    ok = ok and seen_pending and seen_plain
     rets = [r for r in ast.walk(sd) if isinstance(r, ast.Return)]
     keys = set(M.const_str(k) for r in rets if isinstance(r.value, ast.Dict) for k in r.value.keys)
     chk.decide(keys == {'dt', 't', 'count'}, 'nominal-step-in-output', 'keys', node=sd, file=SOL, func='_get_solver_data', detail_bad=str(keys), detail_ok=str(sorted(keys)))
